@@ -71,15 +71,19 @@ def value_of_greedy(on, tg):
 class DqnUFRef:
     """reference over an arbitrary Q-network Q(theta, observation): online parameter theta, target parameter theta'"""
 
-    def __init__(self, it, S, B, A, wrong=None):
+    def __init__(self, it, S, B, A, wrong=None, stateful=False):
         U = UFCall(it)
         self.B = B
         g = S["gamma"][()]
         self.q, self.y, self.uniq, self.ufs = [], [], [], []
         for i in range(B):
-            qs = list(U("Q", [((A,), F32)], S["pol_theta"], S["batch_observations"][i])[0])
-            on = list(U("Q", [((A,), F32)], S["pol_theta"], S["batch_next_observations"][i])[0])
-            tg = list(U("Q", [((A,), F32)], S["tpol_theta"], S["batch_next_observations"][i])[0])
+            # a stateful (recurrent) Q-policy is evaluated at (stored state, observation) for the taken action and at (stored NEXT state, next observation)
+            # for both the greedy selection and the target value
+            st = [S["batch_states_h"][i]] if stateful else []
+            st2 = [S["batch_next_states_h"][i]] if stateful else []
+            qs = list(U("Q", [((A,), F32)], S["pol_theta"], *st, S["batch_observations"][i])[0])
+            on = list(U("Q", [((A,), F32)], S["pol_theta"], *st2, S["batch_next_observations"][i])[0])
+            tg = list(U("Q", [((A,), F32)], S["tpol_theta"], *st2, S["batch_next_observations"][i])[0])
             self.ufs += qs + on + tg
             a = S["batch_actions"][i]
             self.q.append(pick(np.array(qs, dtype=object), a))
@@ -140,20 +144,23 @@ def prove_descent(ck, oid, asm, G, R, replay, bnd, timeout=None):
     return ck.prove(oid, asm, sign_agree(G, R), replay=replay, nonlinear=True, timeout=timeout, sample=False, margin_goal=implies(conj(bnd), sign_agree_margin(G, R)))
 
 
-def sec_dqn_value(ck, B, A, controls=False, c=None):
-    pol, tpol = UFQPolicy(A), UFQPolicy(A)
-    batch = Batch(B, pol.observation_space, pol.action_space, None)
-    tr = trace(dqn_loss_fn, pol, batch, tpol, jnp.array(.9), argnames=["pol", "batch", "tpol", "gamma"], label=f"DQN.dqn_loss[B={B},A={A},uninterpreted Q]")
+def sec_dqn_value(ck, B, A, controls=False, c=None, stateful=False):
+    pol, tpol = UFQPolicy(A, stateful=stateful), UFQPolicy(A, stateful=stateful)
+    batch = Batch(B, pol.observation_space, pol.action_space, pol.reset(key=jax.random.key(0)))
+    sfx = ",stateful_policy" if stateful else ""
+    tr = trace(dqn_loss_fn, pol, batch, tpol, jnp.array(.9), argnames=["pol", "batch", "tpol", "gamma"], label=f"DQN.dqn_loss[B={B},A={A},uninterpreted {'recurrent ' if stateful else ''}Q]")
     ck.encoded(tr)
     concrete.validate(ck, tr, n=1, seed=ck.seed + B, gen=int_gen({"batch_actions": A}))
     it = Interp()
     S = tr.symbols(it, given={"batch_actions": bool_int_arr("a", (B,), A)})
     out = tr.run(it, S)
-    R = DqnUFRef(it, S, B, A)
+    R = DqnUFRef(it, S, B, A, stateful=stateful)
     L = out["loss"][()]
     asm = [u for u in R.uniq if not isinstance(u, bool)]
     bnd = bounds(S, R.ufs)
-    c = prove_proportional(ck, f"dqn.double_selection@B={B},A={A}", asm, L, R.ref, lambda c_: rp_dqn_value(tr, S, it, c_), bnd, c=c)
+    c = prove_proportional(ck, f"dqn.double_selection@B={B},A={A}{sfx}", asm, L, R.ref, lambda c_: rp_dqn_value(tr, S, it, c_, stateful), bnd, c=c)
+    if stateful:
+        return c
     if controls:
         ck.witness(f"witness.dqn.unique_greedy_reachable@B={B},A={A}", asm + [S["batch_dones"][0], z3.Not(S["batch_timeouts"][0])], nonlinear=True)
         for w in ("mask", "online_eval", "target_select"):
@@ -171,13 +178,14 @@ def bounds(S, ufs=()):
     return out
 
 
-def rp_dqn_value(tr, S, it, c):
+def rp_dqn_value(tr, S, it, c, stateful=False):
     def rp(res):
         rpl = Replay(tr, S, res, it.uf_apps)
         pol, batch, tpol, gamma = rpl.args()
-        Qs = rpl.call(lambda: jax.vmap(pol.q_values)(None, batch.observations))[1]
-        On = rpl.call(lambda: jax.vmap(pol.q_values)(None, batch.next_observations))[1]
-        Tg = rpl.call(lambda: jax.vmap(tpol.q_values)(None, batch.next_observations))[1]
+        st, st2 = (batch.states, batch.next_states) if stateful else (None, None)
+        Qs = rpl.call(lambda: jax.vmap(pol.q_values)(st, batch.observations))[1]
+        On = rpl.call(lambda: jax.vmap(pol.q_values)(st2, batch.next_observations))[1]
+        Tg = rpl.call(lambda: jax.vmap(tpol.q_values)(st2, batch.next_observations))[1]
         q, y = np_dqn(Qs, On, Tg, batch.actions, batch.rewards, batch.dones, batch.timeouts, float(gamma))
         real = rpl.run()
         want = float(c) * float(np.mean((q - y) ** 2))
@@ -795,6 +803,9 @@ def main():
         with ck.section(f"dqn.value@B={B}"):
             # the constant identified at the smallest batch is required at the larger ones: mean, not sum
             cd["c"] = sec_dqn_value(ck, B, A, controls=(B == 2), c=cd.get("c"))
+            if B == 2 or (ck.thorough and B <= 2):
+                with ck.section(f"dqn.value.stateful@B={B},A={A}"):
+                    sec_dqn_value(ck, B, A, c=cd.get("c"), stateful=True)
     for (B, S_, A_) in ([(2, 2, 2), (3, 2, 2), (2, 2, 3), (2, 3, 2)] if th else [(2, 2, 2)]):
         with ck.section(f"dqn.grad@B={B},S={S_},A={A_}"):
             sec_dqn_grad(ck, B, S_, A_, controls=(B == 2 and A_ == 2))
